@@ -632,12 +632,133 @@ pub fn check_svc(case: &SvcCase, st: &mut Stats) -> Result<(), String> {
     })
 }
 
+
+// ---------------------------------------------------------------------------------------------
+// the configured per-RPC rates on a live gossip connection
+
+/// A real gossip node serves one connection (real handler, real rpc::Service with the rates of its configuration);
+/// the harness is the peer (real preface, noise, handshake, its own multiplexer) and opens calls of one RPC kind as
+/// fast as the protocol lets it.
+#[derive(Debug, Clone, Serialize, Deserialize, Hash)]
+pub struct LiveRateCase {
+    /// 0 = get_block, 1 = push_block_store_state.
+    rpc: u8,
+    burst: u8,
+    refresh_ms: u8,
+    /// Calls beyond the burst.
+    extra: u8,
+}
+
+pub fn gen_live_rate(ch: &mut Choices) -> LiveRateCase {
+    LiveRateCase { rpc: ch.below(2) as u8, burst: 1 + ch.below(4) as u8, refresh_ms: ch.pick(&[10u8, 20, 30]), extra: 4 + ch.below(6) as u8 }
+}
+
+pub fn check_live_rate(case: &LiveRateCase, st: &mut Stats) -> Result<(), String> {
+    use rand::SeedableRng as _;
+    use zksync_concurrency::scope;
+    use zksync_consensus_engine::{testonly::in_memory, EngineManager};
+    use zksync_consensus_network::verif::{self as hook, gossip::Node, Mux, MuxConfig, NoiseTcp};
+    use zksync_consensus_roles::validator;
+    let rt = tokio::runtime::Builder::new_current_thread().enable_all().build().unwrap();
+    rt.block_on(async {
+        let ctx = &ctx::root();
+        let rng = &mut rand::rngs::StdRng::seed_from_u64(14);
+        let mut setup = validator::testonly::Setup::new_without_pregenesis(rng, 1);
+        setup.push_blocks_v2(rng, 2);
+        let setup = &setup;
+        let nk = gen::node_keys();
+        let rate = limiter::Rate { burst: case.burst.max(1) as usize, refresh: time::Duration::milliseconds(case.refresh_ms.max(1) as i64) };
+        let (name, wire_resp) = if case.rpc == 0 { ("get_block", hook::Wire::GetBlockResp) } else { ("push_block_store_state", hook::Wire::ConsensusResp) };
+        let table = hook::rpc_table();
+        let (cap, inflight) = table.iter().find(|t| t.0 == name).map(|t| (t.1, t.2)).unwrap();
+        let total = case.burst as usize + case.extra as usize;
+        let res: Result<std::time::Duration, String> = scope::run!(ctx, |ctx, s| async move {
+            let eng = in_memory::Engine::new_random(setup, setup.first_block());
+            let (mgr, run) = EngineManager::new(ctx, Box::new(eng), time::Duration::seconds(60)).await.map_err(|e| format!("INFRA: EngineManager::new: {e:?}"))?;
+            s.spawn_bg(async { run.run(ctx).await.map_err(|e| format!("INFRA: engine runner: {e:#}")) });
+            let mut cfg = crate::c12::gossip_cfg(&nk[9]);
+            cfg.rpc.get_block_rate = if case.rpc == 0 { rate } else { limiter::Rate::INF };
+            cfg.rpc.push_block_store_state_rate = if case.rpc == 1 { rate } else { limiter::Rate::INF };
+            let a = std::sync::Arc::new(Node::new(cfg, mgr, Some(setup.epoch)));
+            let mut l = hook::TcpListener::bind().await.map_err(|e| format!("INFRA: bind: {e:#}"))?;
+            let addr = l.addr();
+            let dial = async { NoiseTcp::preface_connect(ctx, addr, false).await.map_err(|e| format!("INFRA: preface_connect: {e:?}")) };
+            let acc = async {
+                let tcp = l.accept(ctx).await.map_err(|e| format!("INFRA: accept: {e:?}"))?;
+                NoiseTcp::preface_accept(ctx, tcp).await.map_err(|e| format!("INFRA: preface: {e:?}")).map(|x| x.0)
+            };
+            let (mine, theirs) = tokio::join!(dial, acc);
+            let (mut mine, theirs) = (mine?, theirs?);
+            {
+                let a = a.clone();
+                s.spawn_bg(async move {
+                    let _ = a.run_inbound_stream(ctx, theirs).await;
+                    Ok(())
+                });
+            }
+            let pcfg = crate::c12::gossip_cfg(&nk[3]);
+            hook::gossip::handshake_outbound(ctx, &pcfg, setup.genesis.hash(), &mut mine, &nk[9].public()).await.map_err(|e| format!("INFRA: handshake of the scripted peer: {e}"))?;
+            let mut m = Mux::new(MuxConfig::rpc());
+            let calls = m.accept(ctx, cap, inflight, limiter::Rate::INF);
+            s.spawn_bg(async move {
+                let _ = m.run(ctx, mine).await;
+                Ok(())
+            });
+            // the request: get_block(first block) / an announcement of the two blocks
+            let request: Vec<u8> = if case.rpc == 0 {
+                let mut r = vec![0x08];
+                crate::c19::pb_varint(&mut r, setup.first_block().0);
+                r
+            } else {
+                let validator::Block::FinalV2(b) = &setup.blocks[1] else { return Err("harness: chain material".into()) };
+                let mut state = vec![0x08];
+                crate::c19::pb_varint(&mut state, setup.first_block().0);
+                state.extend(crate::c19::pb_len(2, &crate::c19::pb_len(3, &zksync_protobuf::encode(&b.justification))));
+                crate::c19::pb_len(3, &state)
+            };
+            let start = std::time::Instant::now();
+            let mut last_grant = start;
+            for _ in 0..total {
+                // the server opens a sub-stream only when its rate limiter grants a permit
+                let mut call = calls.open(ctx).await.map_err(|_| "INFRA: opening a call".to_string())?;
+                last_grant = std::time::Instant::now();
+                call.write_all(ctx, &crate::c19::rpc_frame(&request)).await.map_err(|e| format!("INFRA: sending a request: {e:#}"))?;
+                call.flush(ctx).await.map_err(|e| format!("INFRA: sending a request: {e:#}"))?;
+                call.close_write();
+                let resp = tokio::time::timeout(std::time::Duration::from_secs(10), call.read_exact(ctx, 4)).await.map_err(|_| "INFRA: a call was not answered within 10 s".to_string())?;
+                if !matches!(&resp, Ok(h) if h.len() == 4) {
+                    return Err(format!("the node did not answer a well-formed {name} call: {resp:?}"));
+                }
+            }
+            let _ = wire_resp;
+            Ok(last_grant - start)
+        })
+        .await;
+        let span = res?;
+        // `total` grants within `span` (measured from before the first grant until after the last one, so it can only be
+        // longer than the true span): total <= burst + span / refresh + 1
+        let need = std::time::Duration::from_millis((total as u64).saturating_sub(case.burst as u64 + 1) * case.refresh_ms.max(1) as u64);
+        st.class(if case.rpc == 0 { "get_block_server_rate" } else { "push_block_store_state_server_rate" });
+        st.max("max_calls_per_connection", total as u64);
+        st.nontrivial(common::fingerprint(case));
+        st.sample(|| serde_json::json!({"case": case, "calls": total, "span_ms": span.as_millis() as u64, "minimum_span_ms": need.as_millis() as u64}));
+        if span < need {
+            return Err(format!(
+                "{name}: the node served {total} calls of one connection within {} ms; its configured rate (burst {}, one permit per {} ms) allows that many only after {} ms",
+                span.as_millis(), case.burst, case.refresh_ms, need.as_millis()
+            ));
+        }
+        Ok(())
+    })
+}
+
 pub fn main(env: &Env) -> i32 {
     if let Mode::Replay(path) = env.mode() {
         let (part, case) = Env::read_replay(&path);
         let r = match part.as_str() {
             "limiter" => common::replay_case::<Case>(case, check),
             "service" => common::replay_case::<SvcCase>(case, check_svc),
+            "live_rates" => common::replay_case::<LiveRateCase>(case, check_live_rate),
             p => Err(format!("unknown part {p}")),
         };
         return env.finish_replay(&path, r);
@@ -664,6 +785,21 @@ pub fn main(env: &Env) -> i32 {
         || Choices::strategy(120).prop_map(|mut ch| gen_svc(&mut ch)),
         check_svc,
     ));
+    parts.extend(common::run_regress::<LiveRateCase>(env, "live_rates", check_live_rate));
+    {
+        // wall-clock spans are measured: few cases at a time, so that the node is not starved
+        let mut seq = env.clone_for_part();
+        seq.shards = 4;
+        parts.push(run_proptest(
+            &seq,
+            "live_rates",
+            "a real gossip node serving one connection over loopback TCP (real handler, real rpc::Service wired with the rates of its configuration: burst 1-4, one permit per 10-30 ms for get_block or for push_block_store_state); the harness is the peer (real preface, noise and handshake, its own multiplexer) and issues burst + 4..9 calls of that RPC, each as soon as the previous one is answered; \
+             oracle: the wall-clock span from before the connection's first grant until after the last one is at least (calls - burst - 1) refresh periods - a lower bound on time, so load can only make the observed span longer, never shorter. Every case is non-trivial",
+            PartOpts { cases: env.tier.pick(96, 2_000), max_shrink_iters: 20, samples: 2 },
+            || Choices::strategy(8).prop_map(|mut ch| gen_live_rate(&mut ch)),
+            check_live_rate,
+        ));
+    }
     env.finish(
         "exploration",
         "generated acquire/cancel/release/advance programs and client workloads on a manual clock",
